@@ -21,8 +21,8 @@ type Queue = Rc<RefCell<VecDeque<DuplexStream>>>;
 
 macro_rules! driver {
     ($name:ident, $modv:ident, $opts:expr, $client:ty, $eventloop:ty, $read:expr, $write:expr, $connack:expr, $user:expr) => {
-        async fn $name(n: u16, manual: bool, script: &[Value], queue: Queue, out: &mut Vec<Value>) {
-            let (client, mut el): ($client, $eventloop) = $opts(n, manual);
+        async fn $name(n: u16, manual: bool, throttle_ms: u64, script: &[Value], queue: Queue, out: &mut Vec<Value>) {
+            let (client, mut el): ($client, $eventloop) = $opts(n, manual, throttle_ms);
             let mut broker: Option<DuplexStream> = None;
             let mut rbuf = BytesMut::new();
             let mut up = false;
@@ -147,8 +147,9 @@ macro_rules! driver {
     };
 }
 
-fn v4_opts(n: u16, manual: bool) -> (rumqttc::AsyncClient, rumqttc::EventLoop) {
+fn v4_opts(n: u16, manual: bool, throttle_ms: u64) -> (rumqttc::AsyncClient, rumqttc::EventLoop) {
     let mut o = rumqttc::MqttOptions::new("c", "localhost", 1883);
+    o.set_pending_throttle(Duration::from_millis(throttle_ms));
     o.set_inflight(n).set_keep_alive(Duration::from_secs(5)).set_clean_session(false).set_manual_acks(manual);
     rumqttc::AsyncClient::new(o, 10)
 }
@@ -169,8 +170,9 @@ fn v4_user(c: &rumqttc::AsyncClient, p: &Pk) -> bool {
     }
 }
 
-fn v5_opts(n: u16, manual: bool) -> (rumqttc::v5::AsyncClient, rumqttc::v5::EventLoop) {
+fn v5_opts(n: u16, manual: bool, throttle_ms: u64) -> (rumqttc::v5::AsyncClient, rumqttc::v5::EventLoop) {
     let mut o = rumqttc::v5::MqttOptions::new("c", "localhost", 1883);
+    o.set_pending_throttle(Duration::from_millis(throttle_ms));
     o.set_outgoing_inflight_upper_limit(n).set_keep_alive(Duration::from_secs(5)).set_clean_start(false).set_manual_acks(manual);
     rumqttc::v5::AsyncClient::new(o, 10)
 }
@@ -203,6 +205,7 @@ async fn main() {
     let a: Vec<String> = std::env::args().collect();
     let (version, n) = (a[1].parse::<u32>().unwrap(), a[2].parse::<u16>().unwrap());
     let manual = a.get(5).map_or(false, |x| x == "1");
+    let throttle_ms: u64 = a.get(6).and_then(|x| x.parse().ok()).unwrap_or(0);
     let text = std::fs::read_to_string(&a[3]).unwrap();
     let mut f = std::io::BufWriter::new(std::fs::File::create(&a[4]).unwrap());
     let queue: Queue = Rc::new(RefCell::new(VecDeque::new()));
@@ -214,9 +217,9 @@ async fn main() {
         let mut out: Vec<Value> = Vec::new();
         out.push(json!({"ev": "reset", "version": version, "n": n, "manual": manual}));
         if version == 4 {
-            drive_v4(n, manual, &script, queue.clone(), &mut out).await;
+            drive_v4(n, manual, throttle_ms, &script, queue.clone(), &mut out).await;
         } else {
-            drive_v5(n, manual, &script, queue.clone(), &mut out).await;
+            drive_v5(n, manual, throttle_ms, &script, queue.clone(), &mut out).await;
         }
         queue.borrow_mut().clear();
         scripts += 1;
